@@ -615,7 +615,7 @@ def _mutates_param(prog, callee, pname):
 
 def rule_R2(ctx, entry_terms):
     prog = ctx.prog
-    ctx.rule("R2", "setup_trace records one entry from the post-burn-in tree before the loop; in the loop the append is guarded by i % thin == 0 (thin = the CLI value), records the loop counter, follows every state change of its iteration, is reached before any early exit; the trace is only appended to", 18)
+    ctx.rule("R2", "setup_trace records one entry from the post-burn-in tree before the loop; in the loop the append is guarded by i % thin == 0 (thin = the CLI value), records the loop counter, follows every state change of its iteration, is reached before any early exit; the trace is only appended to", 15)
     f = prog.fn("run._run_main_sampler")
     st_fi = prog.fn("run.setup_trace")
     app = prog.fn("run.append_to_trace")
